@@ -228,7 +228,7 @@ class Gen:
         self.nrefs = kw.get("nrefs", (1, 4))
         self.maxdepth = kw.get("maxdepth", (6, 40))
         self.recursion = kw.get("recursion", 0.3)
-        self.try_calls = kw.get("try_calls", True)   # False: D20 trigger avoided (caught failures of callees)
+        self.try_calls = kw.get("try_calls", True)   # False: no calls inside try (was used to avoid the trigger of D20, repaired in /repo)
         self.p_derived = kw.get("p_derived", 0.0)    # cells realised as derived copies of a base space's cells
 
     def val(self):
